@@ -32,7 +32,7 @@ pub struct PropPlan {
 pub static PLANS: &[PropPlan] = &[PropPlan {
     prop: "C18",
     level: "exploration",
-    sims: &[SimPlan { sim: "cache", quick_runs: 60_000, thorough_runs: 1_500_000 }],
+    sims: &[SimPlan { sim: "cache", quick_runs: 250_000, thorough_runs: 3_000_000 }],
     rule: "each run draws (from one seed) a scenario: a shared LazyValue (escaped string; routes get/serde/iterator) or OwnedLazyValue (document; routes serde/From<LazyValue>/to_lazyvalue), 2-3 thread programs of 1-4 calls, the interleaving at every atomic operation of the cache field, and spurious weak-CAS failures; non-trivial = at least one context switch or injected failure happened; distinct = distinct hash of the rendered trace (scenario, programs, switches, faults, race outcomes)",
     assumptions: &[
         "the baton scheduler serialises threads, so weak-memory effects (missing acquire/release) are invisible to this engine; they are covered by the Miri engine of the same check",
@@ -150,6 +150,66 @@ fn choices_of_seeded_run(exe: &str, sim: &str, seed: u64, run: i64, work: &str) 
     let txt = std::fs::read_to_string(&f).unwrap_or_default();
     let last = txt.rsplit('#').next().unwrap_or("");
     last.split_whitespace().filter_map(|x| x.parse().ok()).collect()
+}
+
+pub struct MiriOutcome {
+    pub seeds: u64,
+    pub first_seed: u64,
+    pub scenarios_ok: u64,
+    pub wall_s: f64,
+    pub failing_seed: Option<u64>,
+    pub error_excerpt: Vec<String>,
+    pub harness_error: Option<String>,
+}
+
+pub fn miri_cmd(verif: &str, miriflags: &str, count: u64, sim: &str) -> Command {
+    let mut c = Command::new("cargo");
+    c.current_dir(format!("{}/sim", verif))
+        .env("MIRIFLAGS", miriflags)
+        .env("RUSTFLAGS", "--cfg sonic_rs_verif")
+        .env("CARGO_NET_OFFLINE", "true")
+        .args(["+nightly", "miri", "run", "--offline", "--target-dir", "target-miri", "--", "miri-batch", "--sim", sim, "--count", &count.to_string()])
+        .stdin(Stdio::null());
+    c
+}
+
+pub const MIRI_BASE_FLAGS: &str = "-Zmiri-disable-stacked-borrows";
+
+/// Second engine: the same scenario shapes under Miri, many seeds (run in parallel by Miri).
+fn miri_engine(verif: &str, sim: &str, first_seed: u64, seeds: u64, count: u64) -> MiriOutcome {
+    let t0 = Instant::now();
+    let flags = format!("{} -Zmiri-many-seeds={}..{}", MIRI_BASE_FLAGS, first_seed, first_seed + seeds);
+    let out = miri_cmd(verif, &flags, count, sim).output();
+    let mut o = MiriOutcome { seeds, first_seed, scenarios_ok: 0, wall_s: 0.0, failing_seed: None, error_excerpt: vec![], harness_error: None };
+    match out {
+        Err(e) => o.harness_error = Some(format!("cannot run cargo miri: {}", e)),
+        Ok(out) => {
+            let so = String::from_utf8_lossy(&out.stdout).to_string();
+            let se = String::from_utf8_lossy(&out.stderr).to_string();
+            o.scenarios_ok = so.lines().filter(|l| l.starts_with("MIRI-OK")).count() as u64;
+            let all = format!("{}\n{}", so, se);
+            let failed = !out.status.success();
+            if failed {
+                for l in all.lines() {
+                    let low = l.to_lowercase();
+                    if let Some(i) = low.find("failing seed:") {
+                        o.failing_seed = low[i + 13..].trim().split(|c: char| !c.is_ascii_digit()).next().and_then(|x| x.parse().ok());
+                    }
+                }
+                let lines: Vec<&str> = all.lines().collect();
+                if let Some(i) = lines.iter().position(|l| l.starts_with("error: Undefined Behavior") || l.starts_with("MIRI-VIOLATION") || l.starts_with("error: memory leaked") || l.starts_with("error: the evaluated program")) {
+                    o.error_excerpt = lines[i..(i + 40).min(lines.len())].iter().map(|s| s.to_string()).collect();
+                }
+                if o.error_excerpt.is_empty() {
+                    // compile error or tool failure: not a property violation
+                    let tail: Vec<String> = lines.iter().rev().take(15).rev().map(|s| s.to_string()).collect();
+                    o.harness_error = Some(format!("cargo miri failed without a Miri diagnostic: {}", tail.join(" | ")));
+                }
+            }
+        }
+    }
+    o.wall_s = t0.elapsed().as_secs_f64();
+    o
 }
 
 struct Reported {
@@ -296,6 +356,8 @@ pub fn main(args: &[String]) -> i32 {
             rendered: vec![],
             minimised: true,
             original_len,
+            miri_seed: None,
+            miri_count: None,
         };
         if let Err(e) = rf.save(&path) {
             harness_errors.push(e);
@@ -332,6 +394,59 @@ pub fn main(args: &[String]) -> i32 {
         }
     }
 
+    // ---- second engine (C18): Miri, many seeds
+    let mut miri_json = serde_json::Value::Null;
+    if prop == "C18" && !args.iter().any(|a| a == "--no-miri") {
+        let seeds: u64 = arg(args, "--miri-seeds").and_then(|s| s.parse().ok()).unwrap_or(if tier == "thorough" { 512 } else { 32 });
+        let count: u64 = if tier == "thorough" { 8 } else { 6 };
+        let first = (seed % 4096) * 4096;
+        let m = miri_engine(&verif, "cache", first, seeds, count);
+        println!("miri engine: seeds {}..{} scenarios_ok={} wall={:.1}s failing_seed={:?}", first, first + seeds, m.scenarios_ok, m.wall_s, m.failing_seed);
+        if let Some(e) = &m.harness_error {
+            harness_errors.push(e.clone());
+        } else if !m.error_excerpt.is_empty() {
+            let fs = m.failing_seed.unwrap_or(first);
+            let path = format!("{}/replays/{}-miri-{}.json", verif, prop, fs);
+            let class = if m.error_excerpt[0].contains("Data race") {
+                "miri/data-race".to_string()
+            } else if m.error_excerpt[0].starts_with("MIRI-VIOLATION") {
+                "miri/oracle-mismatch".to_string()
+            } else if m.error_excerpt[0].contains("leaked") {
+                "miri/leak".to_string()
+            } else {
+                "miri/undefined-behaviour".to_string()
+            };
+            let rf = ReplayFile {
+                property: prop.clone(),
+                sim: "cache".into(),
+                config: "miri".into(),
+                seed,
+                run: fs as i64,
+                engine: "miri".into(),
+                choices: vec![],
+                violation: Violation { class: class.clone(), detail: m.error_excerpt[0].clone() },
+                rendered: m.error_excerpt.clone(),
+                minimised: false,
+                original_len: 0,
+                miri_seed: m.failing_seed,
+                miri_count: Some(count),
+            };
+            let _ = rf.save(&path);
+            let kf = known.findings.iter().find(|k| k.status == "known" && k.property == prop && (k.class_prefix.is_empty() || class.starts_with(&k.class_prefix)) && (k.detail_contains.is_empty() || m.error_excerpt.iter().any(|l| l.contains(&k.detail_contains))));
+            match kf {
+                Some(k) => reported.push(Reported { line: format!("KNOWN-FINDING: property={} {} [{}] replay={}", prop, k.what, k.id, path), is_violation: false }),
+                None => reported.push(Reported { line: format!("VIOLATION property={} replay={}\n  class={} engine=miri miri_seed={:?}\n  {}", prop, path, class, m.failing_seed, m.error_excerpt.iter().take(12).cloned().collect::<Vec<_>>().join("\n  ")), is_violation: true }),
+            }
+        }
+        miri_json = json!({
+            "engine": "Miri (cargo +nightly miri run), -Zmiri-many-seeds; each seed decides preemption, weak-memory load results and spurious compare_exchange_weak failures; no hooks, no baton, no simulated heap; Miri's own data-race, invalid-reference, layout and leak checks are the oracle, plus the model comparison of every value read",
+            "flags": MIRI_BASE_FLAGS,
+            "seeds": m.seeds, "first_seed": m.first_seed, "scenarios_per_seed": count,
+            "scenario_executions_ok": m.scenarios_ok, "wall_s": m.wall_s,
+            "failing_seed": m.failing_seed,
+        });
+    }
+
     // ---- evidence
     let wall = t0.elapsed().as_secs_f64();
     let fault_kinds: BTreeMap<String, u64> = counters.iter().filter(|(k, _)| k.starts_with("fault_")).map(|(k, v)| (k.clone(), *v)).collect();
@@ -366,6 +481,7 @@ pub fn main(args: &[String]) -> i32 {
             "worker_cpu_s": worker_wall,
             "violations_seen_before_dedup": violations_total,
             "engine": "dsim (choice-stream driven simulator; baton scheduler over real OS threads; simulated heap)",
+            "second_engine_miri": miri_json,
         }
     });
     let epath = format!("{}/evidence/{}.json", verif, prop);
